@@ -450,6 +450,28 @@ pub fn c14_cases(c: &Corpus, quick: bool) -> Vec<Circuit> {
     out
 }
 
+pub const HANG_LIMIT: std::time::Duration = std::time::Duration::from_secs(180);
+
+fn report_hang(prop: &str, opts: &Opts, origin: String, c: &Circuit) -> ! {
+    let rp = Replay {
+        engine: "r1csim".into(),
+        property: prop.into(),
+        invariant: "no_termination".into(),
+        key: "no_termination".into(),
+        detail: format!("synthesis did not terminate within {} s", HANG_LIMIT.as_secs()),
+        seed: opts.seed,
+        origin: origin.clone(),
+        original_size: size_of(c),
+        circuit: c.clone(),
+    };
+    let path = opts.replay_dir.join(format!("{}-{}-no_termination.json", prop, opts.seed));
+    let _ = std::fs::create_dir_all(&opts.replay_dir);
+    let _ = std::fs::write(&path, serde_json::to_string_pretty(&rp).unwrap());
+    println!("violation found at {}: no_termination :: a gadget did not return within {} s", origin, HANG_LIMIT.as_secs());
+    println!("VIOLATION property={} replay={}", prop, path.display());
+    std::process::exit(simcore::EXIT_VIOLATION)
+}
+
 struct Acc {
     cov: Coverage,
     digests: BTreeSet<u64>,
@@ -569,12 +591,14 @@ pub fn run_check(prop: &str, opts: &Opts) -> i32 {
     let n_enum = cases.len() as u64;
     {
         let cr = &cases;
-        simcore::par::run_batch(
+        let on_hang = |i: u64| report_hang(prop, opts, format!("enumeration#{}", i), &cr[i as usize]);
+        simcore::par::run_batch_guarded(
             n_enum,
             workers,
             |i| judge_circuit(&cr[i as usize], judge, false),
             &mut acc,
             |acc, i, o| absorb(acc, prop, &known, format!("enumeration#{}", i), &cr[i as usize], o),
+            Some((HANG_LIMIT, &on_hang)),
         );
     }
     let enum_done = acc.found.is_none();
@@ -595,7 +619,16 @@ pub fn run_check(prop: &str, opts: &Opts) -> i32 {
         while start < n_seeded && acc.found.is_none() {
             let n = slice.min(n_seeded - start);
             let cr = &corpus;
-            simcore::par::run_batch(
+            let on_hang = |i: u64| {
+                let mut rng = Rng::new(run_seed(batch_seed, start + i));
+                let c = if prop == "C14" {
+                    gen::adversarial(&mut rng, cr)
+                } else {
+                    gen::history(&mut rng, cr)
+                };
+                report_hang(prop, opts, format!("seeded#{}", start + i), &c)
+            };
+            simcore::par::run_batch_guarded(
                 n,
                 workers,
                 |i| {
@@ -610,6 +643,7 @@ pub fn run_check(prop: &str, opts: &Opts) -> i32 {
                 },
                 &mut acc,
                 |acc, i, (c, o)| absorb(acc, prop, &known, format!("seeded#{}", start + i), &c, o),
+                Some((HANG_LIMIT, &on_hang)),
             );
             start += n;
             seeded_done = start;
